@@ -37,6 +37,8 @@ type Renderer struct {
 	// subst renders parameters as the caller's argument terms (context-
 	// sensitive rendering used by the interprocedural walkers).
 	subst    map[*ssa.Parameter]string
+	// inlineGetters: render calls of pure field getters as the field path (opt-in per rule)
+	inlineGetters bool
 	loopSyms map[*ssa.Phi]string
 	// inlineDepth: nesting of helper bodies rendered in place of their calls (see inlineResults)
 	inlineDepth int
@@ -66,7 +68,7 @@ func newHelper(f *ssa.Function) bool {
 // expressions with the arguments substituted for its parameters (φ over several returns).
 func (r *Renderer) inlineResults(c *ssa.CallCommon, depth int) ([]string, bool) {
 	f, ok := c.Value.(*ssa.Function)
-	if !ok || c.IsInvoke() || !newHelper(f) || r.inlineDepth >= 3 || f == r.fn {
+	if !ok || c.IsInvoke() || !(newHelper(f) || (r.inlineGetters && pureGetter(f))) || r.inlineDepth >= 3 || f == r.fn {
 		return nil, false
 	}
 	sub := NewRenderer(r.w, f)
@@ -85,7 +87,7 @@ func (r *Renderer) inlineResults(c *ssa.CallCommon, depth int) ([]string, bool) 
 	for i := range sets {
 		sets[i] = map[string]bool{}
 	}
-	nret := 0
+	nret, nerr := 0, 0
 	for _, b := range f.Blocks {
 		if b == f.Recover || len(b.Instrs) == 0 {
 			continue
@@ -98,7 +100,6 @@ func (r *Renderer) inlineResults(c *ssa.CallCommon, depth int) ([]string, bool) 
 		if len(rs) != n {
 			return nil, false
 		}
-		nret++
 		// results other than the error are meaningful on the success returns only (the caller
 		// tests the error first): an error return's zero values are not alternatives of the value
 		errRet := false
@@ -111,11 +112,21 @@ func (r *Renderer) inlineResults(c *ssa.CallCommon, depth int) ([]string, bool) 
 				}
 			}
 		}
+		if !errRet {
+			nret++
+		} else {
+			nerr++
+		}
 		for i, v := range rs {
 			if errRet && i < n-1 {
 				continue
 			}
-			sets[i][sub.R(v)] = true
+			t := sub.R(v)
+			// loop symbols number the helper's own loops: spell them out for the caller
+			for k := 0; k < 3 && strings.Contains(t, "$L"); k++ {
+				t = sub.ExpandLoopSyms(t)
+			}
+			sets[i][t] = true
 		}
 	}
 	for i := range sets {
@@ -123,7 +134,7 @@ func (r *Renderer) inlineResults(c *ssa.CallCommon, depth int) ([]string, bool) 
 			return nil, false
 		}
 	}
-	if nret == 0 || nret > 6 {
+	if nret+nerr == 0 || nret > 6 || nerr > 16 {
 		return nil, false
 	}
 	out := make([]string, n)
@@ -140,6 +151,37 @@ func (r *Renderer) inlineResults(c *ssa.CallCommon, depth int) ([]string, bool) 
 		}
 	}
 	return out, true
+}
+
+// pureGetter: a module function that only reads a field path of its receiver / parameters and
+// returns it (x.GetF() ≡ x.a.F): rendering the call as that path is always faithful.
+func pureGetter(f *ssa.Function) bool {
+	if f == nil || len(f.Blocks) != 1 || f.Pkg == nil || !inModule(f.Pkg.Pkg.Path()) || f.Signature.Results().Len() != 1 {
+		return false
+	}
+	for _, in := range f.Blocks[0].Instrs {
+		switch x := in.(type) {
+		case *ssa.FieldAddr, *ssa.Field, *ssa.Return, *ssa.DebugRef:
+		case *ssa.UnOp:
+			if x.Op != token.MUL {
+				return false
+			}
+		case *ssa.Alloc:
+			if x.Heap {
+				return false
+			}
+		case *ssa.Store:
+			if _, isAlloc := x.Addr.(*ssa.Alloc); !isAlloc {
+				return false
+			}
+			if _, isParam := x.Val.(*ssa.Parameter); !isParam {
+				return false
+			}
+		default:
+			return false
+		}
+	}
+	return true
 }
 
 func NewRenderer(w *World, fn *ssa.Function) *Renderer {
@@ -306,12 +348,40 @@ func (r *Renderer) render(v ssa.Value, depth int) string {
 		return "↺"
 	}
 	r.stack[v] = true
-	s := r.render1(v, depth)
+	var s string
+	if els, ok := r.constBytes(v); ok {
+		s = bytesLiteral(els)
+	} else {
+		s = r.render1(v, depth)
+	}
 	delete(r.stack, v)
 	if !strings.Contains(s, "↺") && !strings.Contains(s, "…") {
 		r.memo[v] = s
 	}
 	return s
+}
+
+// constBytes: v is a fixed byte string (literal, constant accessor function, read-only package
+// array): all spellings render as the literal.
+func (r *Renderer) constBytes(v ssa.Value) ([]string, bool) {
+	switch v.(type) {
+	case *ssa.Call, *ssa.UnOp, *ssa.Slice:
+	default:
+		return nil, false
+	}
+	switch t := v.Type().Underlying().(type) {
+	case *types.Slice:
+		if !isByte(t.Elem()) {
+			return nil, false
+		}
+	case *types.Array:
+		if !isByte(t.Elem()) {
+			return nil, false
+		}
+	default:
+		return nil, false
+	}
+	return valueConstBytes(r.w, v, 0)
 }
 
 func (r *Renderer) args(vs []ssa.Value, depth int) string {
@@ -962,7 +1032,7 @@ func renameIdents(pat string, ren map[string]string) string {
 			if i > 0 {
 				prev = pat[i-1]
 			}
-			if to, ok := ren[id]; ok && prev != '.' && prev != '\\' && !(j < len(pat) && pat[j] == '/') && !qualifierAt(pat, j) {
+			if to, ok := ren[id]; ok && prev != '.' && prev != '\\' && prev != '/' && !(j < len(pat) && pat[j] == '/') && !qualifierAt(pat, j) && !methodExprType(pat, i, j) {
 				sb.WriteString(to)
 			} else {
 				sb.WriteString(id)
@@ -974,6 +1044,21 @@ func renameIdents(pat string, ren map[string]string) string {
 		i++
 	}
 	return sb.String()
+}
+
+// methodExprType: the identifier pat[i:j] is the type of a method expression pkg.(T).M or
+// pkg.(*T).M (possibly regexp-escaped), not a value.
+func methodExprType(pat string, i, j int) bool {
+	before, after := pat[:i], pat[j:]
+	if !(strings.HasPrefix(after, `).`) || strings.HasPrefix(after, `\)\.`)) {
+		return false
+	}
+	for _, suf := range []string{`.(*`, `.(`, `\.\(\*`, `\.\(`} {
+		if strings.HasSuffix(before, suf) {
+			return true
+		}
+	}
+	return false
 }
 
 // qualifierAt: the identifier ending at j is a package qualifier — it is followed by ".(" (a
